@@ -1,0 +1,12 @@
+// +build verif
+
+package sign
+
+// Contracts for the verifier in /verif (comment-only).
+
+/*@
+func Signer.Sign
+  modifies signCalls
+  assumes signCalls == old(signCalls) + 1
+func Signer.Verify
+@*/
